@@ -76,8 +76,7 @@ Theorem C18_example_world_wf : wf_world ex_world.
 Proof. exact ex_world_wf. Qed.
 Theorem C18_example_overlapping_targets :
   analyze_default ex_world [s_w] [rel_path [dot]; rel_path [s_sub; []]] =
-  Some [rel_path [s_a_py]; rel_path [s_s_pyi]; rel_path [s_sub; s_b_py];
-        rel_path [s_sub; s_deep; s_c_py]; rel_path [s_sub; s_t_pyi]].
+  Some [rel_path [s_a_py]; rel_path [s_sub; s_b_py]; rel_path [s_sub; s_deep; s_c_py]].
 Proof. exact ex_overlapping_targets. Qed.
 Theorem C18_example_targets_ok : Forall (file_target_ok ex_world [s_w]) [rel_path [dot]; rel_path [s_sub; []]].
 Proof. exact ex_targets_ok. Qed.
